@@ -215,7 +215,10 @@ func TestVerifC09Files(t *testing.T) {
 			l := lengths[bi*blk+x.Choose(n)]
 			kind := x.Choose(2)
 			encrypted := x.Bool()
-			decoyFirst := x.Bool()
+			decoyFirst := false
+			if c <= 4096 || mc.Thorough() {
+				decoyFirst = x.Bool()
+			}
 			ctx, st := verifC09Setup(x, fmt.Sprintf("file-%d-%d-%v", l, kind, encrypted))
 			decoy := verifC09Data(c+7, 0, 0x5a)
 			if decoyFirst {
@@ -271,23 +274,263 @@ func TestVerifC09Files(t *testing.T) {
 		})
 }
 
+var verifC09Patterns = []string{"all paths the same 1-chunk file", "sizes 0,1,C,C+1,2C+5,3C by path index, distinct content", "as before but paths 0 and 3 share one file", "periodic content (shared chunks inside and across files)"}
+
+// uploads a decoy, then (recorded) the files of the path subset and the manifest
+func verifC09BuildDir(ctx context.Context, x *mc.X, st *verifC09Store, sub, pat int, encrypted, rootEntry bool) (boson.Address, []string) {
+	c := int(boson.ChunkSize)
+	sizes := []int{0, 1, c, c + 1, 2*c + 5, 3 * c}
+	verifC09Upload(ctx, x, st, verifC09Data(c+7, 0, 0x5a), encrypted) // decoy
+	st.on = true
+	ls := loadsave.New(st, func() pipeline.Interface {
+		return builder.NewPipelineBuilder(ctx, st, storage.ModePutUpload, encrypted)
+	})
+	m, err := manifest.NewDefaultManifest(ls, encrypted)
+	x.NoErr(err, "NewDefaultManifest")
+	var names []string
+	for i, p := range verifC09Paths {
+		if sub&(1<<uint(i)) == 0 {
+			continue
+		}
+		var data []byte
+		switch pat {
+		case 0:
+			data = verifC09Data(1, 0, 1)
+		case 1:
+			data = verifC09Data(sizes[i], 0, byte(i+1))
+		case 2:
+			j := i
+			if i == 3 {
+				j = 0
+			}
+			data = verifC09Data(sizes[j], 0, byte(j+1))
+		default:
+			data = verifC09Data(sizes[i], 1, 0)
+		}
+		ref := verifC09Upload(ctx, x, st, data, encrypted)
+		err := m.Add(ctx, p, manifest.NewEntry(ref, map[string]string{manifest.EntryMetadataFilenameKey: p}))
+		x.NoErr(err, "manifest Add")
+		names = append(names, fmt.Sprintf("%s:%d", p, len(data)))
+	}
+	if rootEntry {
+		err := m.Add(ctx, manifest.RootPath, manifest.NewEntry(boson.ZeroAddress, map[string]string{manifest.WebsiteIndexDocumentSuffixKey: "index.html"}))
+		x.NoErr(err, "manifest Add root")
+	}
+	root, err := m.Store(ctx)
+	x.NoErr(err, "manifest Store")
+	st.on = false
+	return root, names
+}
+
+func verifC09Subsets() []int {
+	nsub := 1 << uint(len(verifC09Paths))
+	if int(boson.ChunkSize) > 4096 && !mc.Thorough() {
+		return []int{3, 0x18, 0x3f} // production geometry, quick tier
+	}
+	var subsets []int
+	for s := 1; s < nsub; s++ {
+		subsets = append(subsets, s)
+	}
+	return subsets
+}
+
+// Pyramid exchange: the receiving node gets the pyramid of x (GetPyramid on the uploader) and runs
+// GetChunkHashes(x, pyramid) on its own store, which may already hold some of the pyramid's chunks.
+// Afterwards the receiver must hold exactly the pyramid: every pyramid chunk retrievable with the
+// same bytes, nothing else written, Traverse on the receiver reports the written set W, GetPyramid
+// on the receiver gives the same key set, and the returned data lists together with the pyramid
+// cover W.
+var verifC09ReceiverStates = []string{"empty", "root chunk only", "root and every second other pyramid chunk", "every pyramid chunk but the root", "every second non-root pyramid chunk", "all pyramid chunks"}
+
+func verifC09Exchange(ctx context.Context, x *mc.X, up *verifC09Store, root boson.Address, what string, state int) {
+	w := up.rec
+	pyr, err := New(up).GetPyramid(ctx, root)
+	x.Check(err == nil, "pyramid-error", "%s: GetPyramid on the uploader: %v", what, err)
+	var keys []string
+	for k := range pyr {
+		if k != root.String() {
+			keys = append(keys, k)
+		}
+	}
+	sort.Strings(keys)
+	if _, ok := pyr[root.String()]; !ok {
+		x.Fail("pyramid-without-root", "%s: pyramid has no entry for the reference itself", what)
+	}
+	recv := &verifC09Store{MockStorer: smock.NewStorer(), rec: map[string]bool{}}
+	pre := func(k string) {
+		a, err := boson.ParseHexAddress(k)
+		x.NoErr(err, "pyramid key")
+		_, err = recv.MockStorer.Put(ctx, storage.ModePutRequest, boson.NewChunk(a, append([]byte{}, pyr[k]...)))
+		x.NoErr(err, "pre-populating the receiver")
+	}
+	held := 0
+	switch state {
+	case 1:
+		pre(root.String())
+		held = 1
+	case 2:
+		pre(root.String())
+		held = 1
+		for i := 0; i < len(keys); i += 2 {
+			pre(keys[i])
+			held++
+		}
+	case 3:
+		for _, k := range keys {
+			pre(k)
+			held++
+		}
+	case 4:
+		for i := 1; i < len(keys); i += 2 {
+			pre(keys[i])
+			held++
+		}
+	case 5:
+		pre(root.String())
+		held = 1
+		for _, k := range keys {
+			pre(k)
+			held++
+		}
+	}
+	x.Logf("%s: pyramid of %d chunks, receiver holds %d of them before the exchange (%s)", what, len(pyr), held, verifC09ReceiverStates[state])
+	if held > 0 && held < len(pyr) {
+		x.Tag("receiver-holds-part-of-the-pyramid")
+		x.Nontrivial()
+	}
+	if held == 1 && len(pyr) > 1 && state == 1 {
+		x.Tag("receiver-holds-only-the-root-of-a-larger-pyramid")
+	}
+	cp := map[string][]byte{}
+	for k, v := range pyr {
+		cp[k] = append([]byte{}, v...)
+	}
+	recv.on = true
+	rt := New(recv)
+	var lists [][][]byte
+	var xerr error
+	if pv := mc.Try(func() { lists, _, xerr = rt.GetChunkHashes(ctx, root, cp) }); pv != nil {
+		x.Fail("exchange-panic", "%s: GetChunkHashes(ref, pyramid) panics: %v", what, pv)
+	}
+	recv.on = false
+	x.Check(xerr == nil, "exchange-error", "%s: GetChunkHashes(ref, pyramid) on a receiver that holds %s: %v", what, verifC09ReceiverStates[state], xerr)
+	// the receiver stores exactly the pyramid
+	for k, data := range pyr {
+		a, _ := boson.ParseHexAddress(k)
+		ch, err := recv.MockStorer.Get(ctx, storage.ModeGetRequest, a)
+		if err != nil {
+			x.Fail("exchange-leaves-pyramid-chunk-missing", "%s: receiver held %s; after the exchange pyramid chunk %s.. is not in its store (%v); pyramid has %d chunks", what, verifC09ReceiverStates[state], k[:8], err, len(pyr))
+		}
+		x.Check(bytes.Equal(ch.Data(), data), "exchange-stores-different-data", "%s: pyramid chunk %s.. stored with %d bytes, pyramid has %d", what, k[:8], len(ch.Data()), len(data))
+	}
+	for a := range recv.rec {
+		if _, ok := pyr[a]; !ok {
+			x.Fail("exchange-stores-foreign-chunk", "%s: the exchange wrote chunk %s.. which is not in the pyramid", what, a[:8])
+		}
+	}
+	// the receiver can traverse the reference and sees the same chunks as the uploader
+	seen := map[string]bool{}
+	var terr error
+	if pv := mc.Try(func() {
+		terr = rt.Traverse(ctx, root, func(a boson.Address) error { seen[verifC09Addr(a.Bytes())] = true; return nil })
+	}); pv != nil {
+		x.Fail("exchange-receiver-traverse-panic", "%s: Traverse on the receiver panics: %v", what, pv)
+	}
+	x.Check(terr == nil, "exchange-receiver-traverse-error", "%s: Traverse on the receiver (held %s before): %v", what, verifC09ReceiverStates[state], terr)
+	for a := range w {
+		x.Check(seen[a], "exchange-receiver-traverse-differs", "%s: receiver's Traverse does not report written chunk %s..", what, a[:8])
+	}
+	for a := range seen {
+		x.Check(w[a], "exchange-receiver-traverse-differs", "%s: receiver's Traverse reports %s.. which was not written for the object", what, a[:8])
+	}
+	rp, perr := rt.GetPyramid(ctx, root)
+	x.Check(perr == nil, "exchange-receiver-pyramid-error", "%s: GetPyramid on the receiver: %v", what, perr)
+	x.Check(len(rp) == len(pyr), "exchange-receiver-pyramid-differs", "%s: receiver's pyramid has %d chunks, the uploader's %d", what, len(rp), len(pyr))
+	for k := range pyr {
+		if _, ok := rp[k]; !ok {
+			x.Fail("exchange-receiver-pyramid-differs", "%s: receiver's pyramid lacks %s..", what, k[:8])
+		}
+	}
+	// data lists of the exchange and the pyramid cover the written set
+	cover := map[string]bool{}
+	for k := range pyr {
+		cover[k] = true
+	}
+	for _, l := range lists {
+		for _, h := range l {
+			ha := verifC09Addr(h)
+			x.Check(w[ha], "exchange-data-list-has-foreign-chunk", "%s: data chunk %s.. of the exchange is not a written chunk", what, ha[:8])
+			cover[ha] = true
+		}
+	}
+	for a := range w {
+		x.Check(cover[a], "exchange-pyramid-and-data-lists-miss-chunk", "%s: written chunk %s.. is neither in the pyramid nor in the exchange's data lists", what, a[:8])
+	}
+	x.Outcome(fmt.Sprintf("receiver-%d:%s", state, verifC09ReceiverStates[state]))
+}
+
+// A single file as the HTTP API stores it: a manifest with the root entry ("/", zero reference,
+// index document) and one entry for the file. (The exchange of a raw multi-chunk file reference is
+// not something the node does - chunk-info roots are manifest references - and GetChunkHashes cannot
+// do it: it first reads the whole reference as a manifest, which needs the data chunks.)
+func TestVerifC09ExchangeFileManifests(t *testing.T) {
+	c := int(boson.ChunkSize)
+	b := int(boson.Branches)
+	var lengths []int
+	if c > 4096 {
+		lengths = []int{0, 1, c, c + 1, 2*c + 1}
+	} else {
+		lengths = []int{0, 1, c - 1, c, c + 1, 2 * c, 2*c + 1, 3*c + 5, b*c - 1, b * c, b*c + 1, b*c + c, b*c + c + 1, 2*b*c + 1}
+	}
+	mc.Run(t, mc.Config{ID: "C09", Name: fmt.Sprintf("C09-exchange-file-manifests-%dbranches", b), MaxDev: -1, ShardLevels: 1, Params: map[string]interface{}{
+		"file_lengths": lengths, "chunk_size": c, "branches": b, "manifest": "Add(/, zero reference + index document); Add(<name>, file reference) as pkg/api/aurora.go does", "mode": "plain",
+		"receiver_store_before_exchange": verifC09ReceiverStates}},
+		func(x *mc.X) {
+			l := lengths[x.Choose(len(lengths))]
+			state := x.Choose(len(verifC09ReceiverStates))
+			kind := x.Choose(2)
+			ctx, st := verifC09Setup(x, fmt.Sprintf("xfile-%d-%d", l, kind))
+			verifC09Upload(ctx, x, st, verifC09Data(c+7, 0, 0x5a), false) // decoy
+			st.on = true
+			ls := loadsave.New(st, func() pipeline.Interface { return builder.NewPipelineBuilder(ctx, st, storage.ModePutUpload, false) })
+			m, err := manifest.NewDefaultManifest(ls, false)
+			x.NoErr(err, "NewDefaultManifest")
+			x.NoErr(m.Add(ctx, manifest.RootPath, manifest.NewEntry(boson.ZeroAddress, map[string]string{manifest.WebsiteIndexDocumentSuffixKey: "file.bin"})), "manifest Add root")
+			ref := verifC09Upload(ctx, x, st, verifC09Data(l, kind, 0), false)
+			x.NoErr(m.Add(ctx, "file.bin", manifest.NewEntry(ref, map[string]string{manifest.EntryMetadataFilenameKey: "file.bin", manifest.EntryMetadataContentTypeKey: "application/octet-stream"})), "manifest Add file")
+			root, err := m.Store(ctx)
+			x.NoErr(err, "manifest Store")
+			st.on = false
+			if l > b*c {
+				x.Tag("file-with-three-levels")
+			}
+			verifC09Exchange(ctx, x, st, root, fmt.Sprintf("manifest of one file of %d bytes (content kind %d)", l, kind), state)
+		})
+}
+
+func TestVerifC09ExchangeDirs(t *testing.T) {
+	subsets := verifC09Subsets()
+	mc.Run(t, mc.Config{ID: "C09", Name: fmt.Sprintf("C09-exchange-dirs-%dbranches", boson.Branches), MaxDev: -1, ShardLevels: 1, Params: map[string]interface{}{
+		"paths": verifC09Paths, "path_sets": len(subsets), "file_patterns": verifC09Patterns, "mode": "plain",
+		"root_entry": []string{"none", "Add(/, zero reference + website metadata)"}, "receiver_store_before_exchange": verifC09ReceiverStates, "chunk_size": boson.ChunkSize}},
+		func(x *mc.X) {
+			sub := subsets[x.Choose(len(subsets))]
+			pat := x.Choose(len(verifC09Patterns))
+			rootEntry := x.Bool()
+			state := x.Choose(len(verifC09ReceiverStates))
+			ctx, st := verifC09Setup(x, fmt.Sprintf("xdir-%d-%d", sub, pat))
+			root, names := verifC09BuildDir(ctx, x, st, sub, pat, false, rootEntry)
+			verifC09Exchange(ctx, x, st, root, fmt.Sprintf("directory {%s} pattern %d root-entry %v", strings.Join(names, " "), pat, rootEntry), state)
+			x.Outcome(fmt.Sprintf("entries-%d", len(names)))
+		})
+}
+
 var verifC09Paths = []string{"a", "ab", "abc", "b/c", "b/d", "index.html"}
 
 func TestVerifC09Dirs(t *testing.T) {
 	c := int(boson.ChunkSize)
-	sizes := []int{0, 1, c, c + 1, 2*c + 5, 3 * c}
-	patterns := []string{"all paths the same 1-chunk file", "sizes 0,1,C,C+1,2C+5,3C by path index, distinct content", "as before but paths 0 and 3 share one file", "periodic content (shared chunks inside and across files)"}
-	nsub := 1 << uint(len(verifC09Paths))
-	if c > 4096 && !mc.Thorough() {
-		nsub = 0 // production geometry: a fixed list of subsets below
-	}
-	subsets := []int{}
-	for s := 1; s < nsub; s++ {
-		subsets = append(subsets, s)
-	}
-	if nsub == 0 {
-		subsets = []int{1, 3, 7, 0x18, 0x3f}
-	}
+	patterns := verifC09Patterns
+	subsets := verifC09Subsets()
 	mc.Run(t, mc.Config{ID: "C09", Name: fmt.Sprintf("C09-dirs-%dbranches", boson.Branches), MaxDev: -1, ShardLevels: 1, Params: map[string]interface{}{
 		"paths": verifC09Paths, "path_sets": fmt.Sprintf("%d subsets (all non-empty ones unless production quick)", len(subsets)), "file_patterns": patterns,
 		"mode": []string{"plain", "encrypted"}, "root_entry": []string{"none", "Add(/, zero reference + website metadata) after the files"}, "chunk_size": c}},
@@ -297,42 +540,7 @@ func TestVerifC09Dirs(t *testing.T) {
 			encrypted := x.Bool()
 			rootEntry := x.Bool()
 			ctx, st := verifC09Setup(x, fmt.Sprintf("dir-%d-%d-%v", sub, pat, encrypted))
-			verifC09Upload(ctx, x, st, verifC09Data(c+7, 0, 0x5a), encrypted) // decoy
-			st.on = true
-			ls := loadsave.New(st, func() pipeline.Interface { return builder.NewPipelineBuilder(ctx, st, storage.ModePutUpload, encrypted) })
-			m, err := manifest.NewDefaultManifest(ls, encrypted)
-			x.NoErr(err, "NewDefaultManifest")
-			var names []string
-			for i, p := range verifC09Paths {
-				if sub&(1<<uint(i)) == 0 {
-					continue
-				}
-				var data []byte
-				switch pat {
-				case 0:
-					data = verifC09Data(1, 0, 1)
-				case 1:
-					data = verifC09Data(sizes[i], 0, byte(i+1))
-				case 2:
-					j := i
-					if i == 3 {
-						j = 0
-					}
-					data = verifC09Data(sizes[j], 0, byte(j+1))
-				default:
-					data = verifC09Data(sizes[i], 1, 0)
-				}
-				ref := verifC09Upload(ctx, x, st, data, encrypted)
-				err := m.Add(ctx, p, manifest.NewEntry(ref, map[string]string{manifest.EntryMetadataFilenameKey: p}))
-				x.NoErr(err, "manifest Add")
-				names = append(names, fmt.Sprintf("%s:%d", p, len(data)))
-			}
-			if rootEntry {
-				err := m.Add(ctx, manifest.RootPath, manifest.NewEntry(boson.ZeroAddress, map[string]string{manifest.WebsiteIndexDocumentSuffixKey: "index.html"}))
-				x.NoErr(err, "manifest Add root")
-			}
-			root, err := m.Store(ctx)
-			x.NoErr(err, "manifest Store")
+			root, names := verifC09BuildDir(ctx, x, st, sub, pat, encrypted, rootEntry)
 			st.on = false
 			verifC09Upload(ctx, x, st, verifC09Data(2*c+1, 0, 0xa5), encrypted) // second decoy
 			situation := ""
